@@ -207,7 +207,7 @@ func Go(f func()) {
 	}
 	s := cur
 	if s.ntasks >= MaxTasks {
-		panic("simrt: too many tasks")
+		panic(LimitExceeded("simrt: too many tasks"))
 	}
 	parent := s.cur
 	t := &task{id: s.ntasks, wake: make(chan struct{}), parent: parent.id, prio: s.sc.Prio[s.ntasks%MaxTasks]}
@@ -316,6 +316,10 @@ var (
 	stepLimit int64
 	tripped   bool
 )
+
+// LimitExceeded is the panic value raised when a run outgrows a fixed table of
+// the simulator (a limit of the harness, never a fault of the code under test).
+type LimitExceeded string
 
 // StepBudgetExceeded is the panic value raised when the armed budget runs out.
 type StepBudgetExceeded struct{ Limit int64 }
